@@ -86,7 +86,7 @@ MODELS = {
     '@vp_throw_now': dict(c='vp_throw_now', kind='pure'),
     '@vp_mutex_owner': dict(c='vp_mutex_owner_of', kind='pure'),
     '@vp_rw_state': dict(c='vp_rw_state_of', kind='pure'),
-    '@vp_blockcount': dict(c='vp_blockcount', kind='pure'), '@vp_cvwaits': dict(c='vp_cvwaits', kind='pure'),
+    '@vp_blockcount': dict(c='vp_blockcount', kind='pure'), '@vp_cvwaits': dict(c='vp_cvwaits', kind='pure'), '@vp_ublockcount': dict(c='vp_ublockcount', kind='pure'),
     '@vp_hb_data_write': dict(c='vp_hb_data_write', kind='pure'), '@vp_hb_data_read': dict(c='vp_hb_data_read', kind='pure'),
 }
 
